@@ -160,12 +160,15 @@ func (r *schemaLoader) resolveRef(ref *Ref, target interface{}, basePath string)
 
 		// a typed root answers a pointer to an optional member that is not set with a nil pointer, map or slice,
 		// where the JSON form of the same root has no such member: the reference designates nothing
-		if rv := reflect.ValueOf(res); rv.IsValid() {
-			switch rv.Kind() { //nolint:exhaustive
-			case reflect.Ptr, reflect.Map, reflect.Slice, reflect.Interface:
-				if rv.IsNil() {
-					return fmt.Errorf("resolve ref: %q designates a member that is not set: %w", ref.String(), ErrSpec)
-				}
+		rv := reflect.ValueOf(res)
+		if !rv.IsValid() {
+			// an untyped nil: a free-form member (e.g. example) that is not set, or a JSON null
+			return fmt.Errorf("resolve ref: %q designates a member that is not set: %w", ref.String(), ErrSpec)
+		}
+		switch rv.Kind() { //nolint:exhaustive
+		case reflect.Ptr, reflect.Map, reflect.Slice, reflect.Interface:
+			if rv.IsNil() {
+				return fmt.Errorf("resolve ref: %q designates a member that is not set: %w", ref.String(), ErrSpec)
 			}
 		}
 	}
